@@ -71,10 +71,24 @@ def _kernel(ck: Checker, prog: Program, name: str):
         ck.violation("C02.R6", q, "signature", f"signature {f.params}", loc=f.loc())
     o, i = _loops(f)
     cfg = cfg_of(f)
-    if unparse(o.iter) != "enumerate(fcs)" or unparse(i.iter) != "enumerate(frequencies)":
-        raise AnalysisError(f"{q}: loops are not enumerate(fcs) / enumerate(frequencies)")
+    if unparse(o.iter) != "enumerate(fcs)":
+        raise AnalysisError(f"{q}: outer loop is not enumerate(fcs)")
     fc_index, fc = [unparse(e) for e in o.target.elts]
-    f_index, fr = [unparse(e) for e in i.target.elts]
+    if unparse(i.iter) == "enumerate(frequencies)" and isinstance(i.target, ast.Tuple):
+        f_index, fr = [unparse(e) for e in i.target.elts]
+    elif isinstance(i.iter, ast.Call) and call_name(i.iter) == "range" and isinstance(i.target, ast.Name):
+        f_index = i.target.id
+        d = [st for st in i.body if isinstance(st, ast.Assign) and unparse(st.value) == f"frequencies[{f_index}]"]
+        if not d:
+            raise AnalysisError(f"{q}: inner loop variable for the frequency not found")
+        fr = unparse(d[0].targets[0])
+        full = [unparse(a) for a in i.iter.args] in (["len(frequencies)"], ["frequencies.size"], ["0", "len(frequencies)"], ["0", "frequencies.size"])
+        if not full:
+            ck.violation("C02.R3", q, norm_key(i),
+                         f"the inner loop `{norm_key(i, 80)}` does not visit every frequency for every centre frequency: samples inside a window "
+                         f"can be skipped (the result depends on the other centre frequencies / their order)", loc=f.loc(i))
+    else:
+        raise AnalysisError(f"{q}: inner loop is not over all frequencies (enumerate(frequencies) / range(len(frequencies)))")
     # ------------------------------------------------------------------ R1
     acc_p = [st for st in ast.walk(i) if isinstance(st, ast.AugAssign) and isinstance(st.op, ast.Add) and unparse(st.target) == "sumproduct"]
     acc_w = [st for st in ast.walk(i) if isinstance(st, ast.AugAssign) and isinstance(st.op, ast.Add) and unparse(st.target) == "sumwindow"]
